@@ -136,6 +136,10 @@ ITEMS = [
      SENDRW + KEY + "    let l: &'static happylock::rwlock::RwLock<i32, SendRw> = Box::leak(Box::new(happylock::rwlock::RwLock::new(1)));\n    let g = l.write(key);\n    std::thread::spawn(move || drop(g));",
      SENDRW + KEY + "    let l: &'static happylock::rwlock::RwLock<i32, SendRw> = Box::leak(Box::new(happylock::rwlock::RwLock::new(1)));\n    let g = l.write(key);\n    drop(g);",
      'negb (impl_auto auto_rules (mkrf true true true true) MSend (TCon "RwLockWriteGuard" (TPay true true)))', ["E0277"], None),
+    ("try_error_send", "C14", "the error of a failed try_lock of a Poisonable (it hands the key back, or carries the guard) moved to another thread",
+     "    fn f<G: Send + 'static>(e: happylock::poisonable::TryLockPoisonableError<'static, G>) { std::thread::spawn(move || drop(e)); }",
+     "    fn f<G: Send + 'static>(e: happylock::poisonable::TryLockPoisonableError<'static, G>) { drop(e); }",
+     'negb (impl_auto all_rules (mkrf true true true true) MSend (TCon "TryLockPoisonableError" (TPay true true)))', ["E0277"], None),
     ("collection_guard_field_moved_out", "C14", "moving the holds out of a collection guard through its field (the key is dropped, the holds live on)",
      KEY + "    let c = LockCollection::new((Mutex::new(1), Mutex::new(2)));\n    let holds = c.lock(key).guard;\n    let k2 = ThreadKey::get();",
      KEY + "    let c = LockCollection::new((Mutex::new(1), Mutex::new(2)));\n    let g = c.lock(key);\n    drop(g);\n    let k2 = ThreadKey::get();",
